@@ -1,6 +1,7 @@
 mod rng;
 mod usersink;
 mod s_sink;
+mod dump;
 
 use std::io::{BufRead, Write};
 
@@ -31,6 +32,7 @@ fn main() {
             }
             print!("{}", out);
         }
+        Some("dump") => dump::dump(),
         Some("run") => {
             std::panic::set_hook(Box::new(|_| {}));
             let stdin = std::io::stdin();
